@@ -6,8 +6,8 @@ package c20
 import (
 	"encoding/json"
 	"fmt"
-	"os"
 	"math/rand"
+	"os"
 	"strconv"
 	"strings"
 	"testing"
